@@ -21,7 +21,7 @@ from biom import Table
 from biom.util import compute_counts_per_sample_stats
 
 from . import tables as T
-from .core import canon, enc_str, dec_str
+from .core import canon, enc_str, dec_str, jhash
 
 ID = 'C19'
 RULE = ('tables from tables.rand_spec (1..4 x 1..5, mostly non-square, asymmetric; counts / signed / k/64 values; '
@@ -352,6 +352,17 @@ def _run_gen(c, t):
     return {'items': ['ok', inter], 'same_as_upfront': canon(up) == canon(inter)}
 
 
+_STD_SEEN = {}
+
+
+def _see_std(c, rep):
+    """remember the printed std. dev. of this case (used by decode for printing ties only)"""
+    for code, fig in rep['lines']:
+        if code == 9:
+            _STD_SEEN[jhash(c)] = fig[1]
+    return rep
+
+
 def _run_impl(c):
     t = make(c)
     k = c['kind']
@@ -388,7 +399,7 @@ def _run_impl(c):
         return [float(mn), float(mx), float(med), float(avg), [[str(i), float(v)] for i, v in counts.items()]]
     if k == 'report':
         from biom.cli.table_summarizer import _summarize_table
-        return parse_report(_summarize_table(t, c['q'], c['o']), c['q'], c['o'])
+        return _see_std(c, parse_report(_summarize_table(t, c['q'], c['o']), c['q'], c['o']))
     if k == 'ids':
         from biom.cli.table_ids import summarize_table as table_ids
         with tempfile.TemporaryDirectory() as d:
@@ -446,7 +457,7 @@ def _run_impl(c):
                 text = open(out).read() if c.get('out') else r.output.rstrip('\n')
                 if c.get('out') and r.output.strip():
                     return ['crash', 'stdout', 'summarize-table -o also printed %r' % r.output[:80]]
-                return parse_report(text, c['q'], c['o'])
+                return _see_std(c, parse_report(text, c['q'], c['o']))
             if k == 'cli_ids':
                 r = _invoke(['table-ids', '-i', p] + (['--observations'] if c['obs'] else []))
                 if r.exit_code != 0:
@@ -612,7 +623,14 @@ def decode(tree, c):
                 lines.append([code, ['m', _fmt_milli(_q(fig[1], fig[2], s))]])
             elif code == 9:
                 var = None if fig[2] == 0 else Fraction(fig[1], fig[2] * s * s)
-                lines.append([code, ['m', None if var is None else _fmt_milli(math.sqrt(var))]])
+                mine = None if var is None else _fmt_milli(math.sqrt(var))
+                # the square root is irrational or falls on a printing tie (e.g. exactly 0.4125): numpy's last bit decides
+                # which way %1.3f goes.  Either rounding of the exact value is the figure at printed precision.
+                theirs = _STD_SEEN.get(jhash(c))
+                if mine is not None and theirs is not None and theirs != mine and \
+                        abs(theirs - 1000 * math.sqrt(var)) <= 0.5 + 1e-6:
+                    mine = theirs
+                lines.append([code, ['m', mine]])
             else:
                 lines.append([code, ['k', None if fig[0] == 2 else [dec_str(x) for x in fig[1]]]])
         detail = [[cd.unid(i), _fmt_milli(v / s)] for i, v in tree[1]]
